@@ -75,6 +75,7 @@ structure DState where
   committed : Store := []
   txn : Option Store := none
   infos : List (Nat × IndexInfo) := []
+  infosAtBegin : List (Nat × IndexInfo) := []
   pending : Option Pending := none
   inDump : Bool := false
   dumpKV : Array (Bytes × Bytes) := #[]
@@ -661,9 +662,15 @@ def step (d : DState) (line : String) : DState :=
   | "host" :: rest =>
     let flag (k : String) := (kv? rest k) == some "1"
     { d with host := { avx := flag "avx", fma := flag "fma", sse := flag "sse" } }
-  | ["begin"] => { d with txn := some d.committed, step := d.step + 1 }
+  | ["begin"] => { d with txn := some d.committed, step := d.step + 1, infosAtBegin := d.infos }
   | ["commit"] => { d with committed := d.view, txn := none, step := d.step + 1 }
-  | ["abort"] => { d with txn := none, step := d.step + 1, resync := false, preBuild := none, past := [] }
+  | ["abort"] =>
+    -- what `prepare` and the builds of this transaction changed goes back with it
+    let infos := d.infos.map fun (i, info) =>
+      match d.infosAtBegin.find? (·.1 == i) with
+      | some (_, old) => (i, old)
+      | none => (i, { info with capHist := none })
+    { d with txn := none, step := d.step + 1, resync := false, preBuild := none, past := [], infos := infos }
   | ["endcase"] => if d.caseFailures == 0 then d.emit s!"CASE {d.caseId} ok steps={d.step} builds={d.caseBuilds} splits={d.caseSplits} queries={d.caseQueries}" else d.emit s!"CASE {d.caseId} FAILED failures={d.caseFailures}"
   | "note" :: _ => d
   | ["expect-recovered"] => { d with expectRecovered := true }
